@@ -237,7 +237,7 @@ class Locality:
         self.created_after_set = False
 
     def _probe(self, r, k):
-        calc, exp = self.calcs[k]
+        calc, exp, other = self.calcs[k]
         spec = {"table": "TableG7", "bc": 0.3, "mv": self.MV, "sh": 2.0, "atmo": {"kind": "icao", "alt": 0.0}, "winds": None}
         sh = build.shot(spec)
         _, Exceeded = build.counting(sh.atmo, 2000)
@@ -250,6 +250,27 @@ class Locality:
         if abs(h_obs - exp) > 1e-9 * exp:
             r.bad("C18:locality:calculator-step-changed", f"calculator {k} integrates with step {h_obs!r} ft, it was created with {exp!r} ft "
                   f"(global now {self.global_step!r})")
+            return
+        # ... and its other settings: gravity (a level launch falls g dt^2 in the first step) and the iteration cap
+        g_exp = other.get("cGravityConstant", -32.17405)
+        g_obs = (tr[1].y - tr[0].y) / (tr[1].t ** 2)
+        if abs(g_obs - g_exp) > 1e-5 * abs(g_exp):
+            r.bad("C18:locality:calculator-gravity-changed", f"calculator {k} (settings {other}) falls with g = {g_obs!r} ft/s^2 in its first step, expected {g_exp!r}")
+            return
+        cap = other.get("cMaxIterations", 20)
+        csh = build.counting_shot(dict(spec, twist=0.0))
+        failed = False
+        try:
+            calc.barrel_elevation_for_target(csh, D.Foot(12.0 * max(1.0, exp)))
+        except (pb.ZeroFindingError, pb.RangeError):
+            failed = True
+        if csh._vf_reads > cap:
+            r.bad("C18:locality:calculator-iteration-cap-changed", f"calculator {k} (settings {other}) ran {csh._vf_reads} integrations to zero, "
+                  f"its cap is {cap}")
+        elif failed and "cMaxIterations" not in other and "cZeroFindingAccuracy" not in other:
+            # an easy target a few steps away is found well inside the default 20 iterations
+            r.bad("C18:locality:calculator-iteration-cap-changed", f"calculator {k} (settings {other}, default cap and accuracy) failed to zero at "
+                  f"{12.0 * max(1.0, exp)!r} ft after {csh._vf_reads} integrations")
 
     def apply(self, op):
         r = Res()
@@ -290,14 +311,14 @@ class Locality:
                 if key not in self.cfg_objs:
                     self.cfg_objs[key] = ({"cMinimumVelocity": 10.0} if key else {"cGravityConstant": -32.0})
                     self.cfg_snap[key] = dict(self.cfg_objs[key])
-                self.calcs.append((pb.Calculator(_config=self.cfg_objs[key]), self.global_step))
+                self.calcs.append((pb.Calculator(_config=self.cfg_objs[key]), self.global_step, dict(self.cfg_snap[key])))
                 if self.cfg_objs[key] != self.cfg_snap[key]:
                     r.bad("C18:locality:caller-settings-dict-mutated", f"creating a calculator changed the caller's settings dict to {self.cfg_objs[key]}")
                     self.cfg_objs[key] = dict(self.cfg_snap[key])
             elif a["explicit"] is None:
-                self.calcs.append((pb.Calculator(_config=dict(a["other"])) if a["other"] else pb.Calculator(), self.global_step))
+                self.calcs.append((pb.Calculator(_config=dict(a["other"])) if a["other"] else pb.Calculator(), self.global_step, dict(a["other"])))
             else:
-                self.calcs.append((pb.Calculator(_config=dict(a["other"], max_calc_step_size_feet=a["explicit"])), a["explicit"]))
+                self.calcs.append((pb.Calculator(_config=dict(a["other"], max_calc_step_size_feet=a["explicit"])), a["explicit"], dict(a["other"])))
             if self.set_between:
                 self.created_after_set = True
             if len(self.calcs) > 5:
@@ -331,7 +352,8 @@ LOC_RULES = {
     "set_invalid": st.fixed_dictionaries({"ft": st.one_of(st.just(0.0), st.floats(-10.0, 0.0), st.just(-0.0)), "explicit": st.booleans()}),
     "reset": st.just({}),
     "new_calc": st.fixed_dictionaries({"reuse": st.one_of(st.none(), st.integers(0, 1)), "explicit": st.one_of(st.none(), st.floats(0.1, 6.0)),
-                                       "other": st.sampled_from([{}, {}, {"cMinimumVelocity": 10.0}, {"cGravityConstant": -30.0}])}),
+                                       "other": st.sampled_from([{}, {}, {"cMinimumVelocity": 10.0}, {"cGravityConstant": -30.0}, {"cMaxIterations": 1},
+                                                                 {"cGravityConstant": -20.0, "cMaxIterations": 2, "cZeroFindingAccuracy": 1e-9}])}),
     "probe": st.fixed_dictionaries({"k": st.integers(0, 4)}),
 }
 
@@ -421,6 +443,26 @@ def _check_name(r, text, unit_name, channels, tmpdir=None, number="1.5", pad=(""
                     r.bad(f"C18:parse:_parse_value:second-parse-differs:{unit_name}", f"_parse_value({s!r}) after the first result was re-displayed in {other_u}: {q2!r}")
         except Exception as exc:  # noqa
             r.bad(key("_parse_value", "rejected"), f"_parse_value({s!r}) raised {type(exc).__name__}: {exc}")
+    if "parse_value" in channels:
+        # a plain number with the unit named separately (the `preferred` argument as a string)
+        val = float(number) % 5.0 if dim == "angular" else float(number)
+        for inp in (val, f"{val!r}"):
+            try:
+                q = _parse_value(inp, padded)
+                if q is None or q.units != want or abs(q.unit_value - val) > 1e-12 * max(1.0, abs(val)):
+                    r.bad(f"C18:parse:_parse_value:preferred-name:wrong-result:{unit_name}", f"_parse_value({inp!r}, {padded!r}) = {q!r}")
+            except Exception as exc:  # noqa
+                r.bad(key("_parse_value-preferred-name", "rejected"), f"_parse_value({inp!r}, {padded!r}) raised {type(exc).__name__}: {exc}")
+    if "set" in channels:
+        # the keyword form of basicConfig
+        pb.PreferredUnits.defaults()
+        other = next(u for u in ref.UNITS_BY_DIM[dim] if u != unit_name) if len(ref.UNITS_BY_DIM[dim]) > 1 else unit_name
+        setattr(pb.PreferredUnits, slot, Unit[other])
+        pb.basicConfig(preferred_units={slot: padded})
+        got = getattr(pb.PreferredUnits, slot)
+        if got != want or not isinstance(got, Unit):
+            r.bad(key("basicConfig-keyword", "ignored"), f"basicConfig(preferred_units={{{slot!r}: {padded!r}}}) left the slot at {got!r}, expected Unit.{unit_name}")
+        pb.PreferredUnits.defaults()
     if "toml" in channels and tmpdir is not None:
         pb.PreferredUnits.defaults()
         pb.reset_globals()
@@ -558,6 +600,42 @@ def check_unknown(case):
         r.bad(attr_key if case["kind"] == "attr" else "C18:parse:unknown-name-changes-slot",
               f"PreferredUnits.set({case['slot']}={s!r}) changed the slot to {now[case['slot']]!r}")
     pb.PreferredUnits.defaults()
+    # ... through a configuration file (preferred unit and step unit) and the keyword form of basicConfig
+    if all(ch.isprintable() and ch not in '"\\' for ch in s):
+        tmpdir = tempfile.mkdtemp(prefix="pybc_c18u_")
+        try:
+            pb.reset_globals()
+            snap = _slots_snapshot()
+            step0 = pb.get_global_max_calc_step_size().raw_value
+            path = os.path.join(tmpdir, "pybc.toml")
+            with open(path, "w", encoding="utf-8") as fh:
+                fh.write(f'[pybc.preferred_units]\n{case["slot"]} = "{s}"\n\n[pybc.calculator]\nmax_calc_step_size = {{ value = 2.0, units = "{s}" }}\n')
+            for how in ("file", "keyword"):
+                try:
+                    if how == "file":
+                        pb.basicConfig(path, suppress_warnings=True)
+                    else:
+                        pb.basicConfig(preferred_units={case["slot"]: s}, suppress_warnings=True)
+                except Exception:  # noqa
+                    pass
+                now = _slots_snapshot()
+                if now != snap or any(not isinstance(v, Unit) for v in now.values()):
+                    r.bad(attr_key if case["kind"] == "attr" else "C18:parse:unknown-name-changes-slot",
+                          f"basicConfig ({how}) with {case['slot']} = {s!r} changed the slot to {now[case['slot']]!r}")
+                if pb.get_global_max_calc_step_size().raw_value != step0:
+                    r.bad(attr_key if case["kind"] == "attr" else "C18:parse:unknown-name-sets-step",
+                          f"pybc.toml with max_calc_step_size units = {s!r} changed the global step to {pb.get_global_max_calc_step_size()!r}")
+        finally:
+            shutil.rmtree(tmpdir, ignore_errors=True)
+            pb.PreferredUnits.defaults()
+            pb.reset_globals()
+    for inp in (2.5, "2.5"):
+        try:
+            q = _parse_value(inp, s)
+        except Exception:  # noqa
+            q = None
+        if q is not None:
+            r.bad(attr_key if case["kind"] == "attr" else "C18:parse:unknown-name-value", f"_parse_value({inp!r}, {s!r}) = {q!r} although {s!r} names no unit")
     try:
         q = _parse_value("2.5" + s, None)
     except Exception:  # noqa
